@@ -28,6 +28,7 @@
 #include "os_base.h"
 #include <qb/qbdefs.h>
 #include <qb/qbatomic.h>
+#include "verif_hook.h"
 
 /* This is a thin wrapper around the new gcc atomics.
  */
@@ -91,6 +92,7 @@ static inline int32_t
 qb_atomic_int_get_ex(volatile int32_t QB_GNUC_MAY_ALIAS * atomic,
 		     enum qb_atomic_model model)
 {
+	QB_VERIF_POINT(QB_VP_ATOMIC_LOAD, (const void *)atomic, 0, model);
 #ifdef HAVE_GCC_BUILTINS_FOR_ATOMIC_OPERATIONS
 	return __atomic_load_n(atomic, qb_model_map(model));
 #else
@@ -112,6 +114,7 @@ qb_atomic_int_set_ex(volatile int32_t QB_GNUC_MAY_ALIAS * atomic,
 		     int32_t newval,
 		     enum qb_atomic_model model)
 {
+	QB_VERIF_POINT(QB_VP_ATOMIC_STORE, (const void *)atomic, newval, model);
 #ifdef HAVE_GCC_BUILTINS_FOR_ATOMIC_OPERATIONS
 	__atomic_store_n(atomic, newval, qb_model_map(model));
 #else
